@@ -104,6 +104,8 @@ pub struct SaleCfg {
     pub wl_stage_limit: Option<u32>,
     pub wl_members: Vec<&'static str>,
     pub wl_flex_count: u32,
+    /// requested collection start_trading_time at creation (absolute nanoseconds); None = not given
+    pub start_trading: Option<u64>,
 }
 impl SaleCfg {
     pub fn basic(variant: usize) -> Self {
@@ -123,6 +125,7 @@ impl SaleCfg {
             wl_stage_limit: None,
             wl_members: vec!["buyer1", "buyer2"],
             wl_flex_count: 2,
+            start_trading: None,
         }
     }
 }
@@ -271,7 +274,7 @@ impl SaleWorld {
                 "code_id": sg721_code, "name": "Collection", "symbol": "COL",
                 "info": {"creator": CREATOR, "description": "d", "image": "https://example.com/image.png",
                          "external_link": "https://example.com/external.html", "explicit_content": false,
-                         "start_trading_time": null,
+                         "start_trading_time": cfg.start_trading.map(ts),
                          "royalty_info": {"payment_address": CREATOR, "share": "0.1"}}
             }}});
         let fee = if cfg.fp.creation_fee > 0 { vec![coin(cfg.fp.creation_fee, NATIVE)] } else { vec![] };
@@ -323,8 +326,13 @@ impl SaleWorld {
             .iter()
             .enumerate()
             .map(|(i, (s, e))| {
-                json!({"name": format!("stage{}", i), "start_time": ts(now + s * S), "end_time": ts(now + e * S),
-                       "mint_price": coinv(price, denom), "per_address_limit": limit, "mint_count_limit": stage_limit})
+                let mut st = json!({"name": format!("stage{}", i), "start_time": ts(now + s * S), "end_time": ts(now + e * S),
+                       "mint_price": coinv(price, denom), "mint_count_limit": stage_limit});
+                // tiered-whitelist-flex stages have no per_address_limit (the member's own count is the limit)
+                if kind != WlKind::TieredFlex {
+                    st["per_address_limit"] = json!(limit);
+                }
+                st
             })
             .collect();
         let (code, msg) = match kind {
